@@ -139,7 +139,7 @@ func init() {
 	// all 256 status codes x {valid error body, garbage, empty}, on a protobuf-codec and on a JSON-codec connection
 	for _, cd := range []protocol.CodecType{protocol.CodecProtobuf, protocol.CodecJSON} {
 		cd := cd
-		register(&scenario{Name: "c05/status-mapping" + map[protocol.CodecType]string{protocol.CodecProtobuf: "", protocol.CodecJSON: "-json"}[cd], Codec: cd, Props: []string{"C05"}, Quick: true, Run: func(t *T) {
+		register(&scenario{Name: "c05/status-mapping" + map[protocol.CodecType]string{protocol.CodecProtobuf: "", protocol.CodecJSON: "-json"}[cd], Codec: cd, Props: []string{"C05", "C06"}, Quick: true, Run: func(t *T) {
 			p := newPeer(t, t.Transport, t.Version)
 			defer p.Shutdown()
 			p.onFrame = func(pc *peerConn, f frameIn) {
